@@ -994,7 +994,7 @@ Patch Parser::parse_normal_patch(Patch& patch)
             current_hunk.lines.emplace_back('-', Line(patch_line.substr(2, patch_line.size()), newline));
         }
 
-        if (m_file.peek() == '\\') {
+        if (!current_hunk.lines.empty() && m_file.peek() == '\\') {
             get_line(patch_line, &newline);
             current_hunk.lines.back().line.newline = NewLine::None;
         }
@@ -1014,7 +1014,7 @@ Patch Parser::parse_normal_patch(Patch& patch)
             current_hunk.lines.emplace_back('+', Line(patch_line.substr(2, patch_line.size()), newline));
         }
 
-        if (m_file.peek() == '\\') {
+        if (!current_hunk.lines.empty() && m_file.peek() == '\\') {
             get_line(patch_line, &newline);
             current_hunk.lines.back().line.newline = NewLine::None;
         }
